@@ -79,6 +79,10 @@ KERNELS = [
          ret="A0 Nat", pick="aDb", pids=["C07"]),
     dict(name="dominance_bDa", file="skcriteria/utils/rank.py", fn="dominance", params={"array_a": V, "array_b": V, "reverse": "A1 n Bool"},
          ret="A0 Nat", pick="bDa", pids=["C07"]),
+    dict(name="negate_minimize", file="skcriteria/preprocessing/invert_objectives.py", cls="NegateMinimize", fn="_invert",
+         params={"matrix": M, "minimize_mask": "A1 n Bool"}, ret=M, pick=None, pids=["C12", "C10", "C05"]),
+    dict(name="invert_minimize", file="skcriteria/preprocessing/invert_objectives.py", cls="InvertMinimize", fn="_invert",
+         params={"matrix": M, "minimize_mask": "A1 n Bool"}, ret=M, pick=None, pids=["C12", "C10", "C05"]),
     dict(name="cenit", file="skcriteria/preprocessing/scalers.py", fn="matrix_scale_by_cenit_distance", params={"matrix": M, "objectives": V},
          ret=M, pick=None, pids=["C11", "C12"]),
     dict(name="scale_by_sum_M", file="skcriteria/preprocessing/scalers.py", fn="scale_by_sum", params={"arr": M}, bind={"axis": 0}, ret=M, pick=None,
@@ -296,7 +300,7 @@ class Tr:
             return f"(Np.less {self.e(args[1])} {self.e(args[0])})"
         if name in unary and len(args) == 1 and not kws:
             return f"(Np.{unary[name]} {self.e(args[0])})"
-        if name == "asarray" and len(args) == 1 and all(kw.arg == "dtype" for kw in kws):
+        if name in ("asarray", "array") and len(args) == 1 and all(kw.arg in ("dtype", "copy") for kw in kws):
             if kws:
                 self.notes.append("dtype of np.asarray ignored (the model's numbers have one type)")
             return f"(Np.asarray {self.e(args[0])})"
@@ -440,6 +444,15 @@ class Tr:
                         raise Untranslated("statement inside np.errstate")
                     self.env.add(b.targets[0].id)
                     lines.append(f"  let {_q(b.targets[0].id)} := {self.e(b.value)}")
+            elif isinstance(s, ast.Assign) and len(s.targets) == 1 and isinstance(s.targets[0], ast.Subscript) \
+                    and isinstance(s.targets[0].value, ast.Name) and s.targets[0].value.id in self.env \
+                    and isinstance(s.targets[0].slice, ast.Tuple) and len(s.targets[0].slice.elts) == 2 \
+                    and isinstance(s.targets[0].slice.elts[0], ast.Slice) and s.targets[0].slice.elts[0].lower is None \
+                    and s.targets[0].slice.elts[0].upper is None and s.targets[0].slice.elts[0].step is None:
+                # x[:, mask] = values
+                nm = s.targets[0].value.id
+                lines.append(f"  let {_q(nm)} := (Np.set_cols {_q(nm)} {self.e(s.targets[0].slice.elts[1])} {self.e(s.value)})")
+                self.rebound.add(nm)
             elif isinstance(s, ast.Assign) and len(s.targets) == 1 and isinstance(s.targets[0], ast.Tuple) and isinstance(s.value, ast.Tuple) \
                     and len(s.targets[0].elts) == len(s.value.elts) and all(isinstance(t, ast.Name) for t in s.targets[0].elts):
                 rhs = [self.e(v) for v in s.value.elts]  # all right-hand sides first
@@ -661,9 +674,16 @@ def translate_one(repo: Path, k):
         tree = ast.parse((repo / k["file"]).read_text())
         if k.get("kind") == "guards":
             return _translate_guards(k, tree, head)
-        fn = _find_fn(tree, k["fn"])
+        if k.get("cls"):
+            cls = next((c for c in tree.body if isinstance(c, ast.ClassDef) and c.name == k["cls"]), None)
+            fn = next((f for f in (cls.body if cls else []) if isinstance(f, ast.FunctionDef) and f.name == k["fn"]), None)
+            if fn is not None:
+                fn = ast.FunctionDef(name=fn.name, args=ast.arguments(posonlyargs=[], args=fn.args.args[1:], vararg=fn.args.vararg, kwonlyargs=fn.args.kwonlyargs,
+                                     kw_defaults=fn.args.kw_defaults, kwarg=fn.args.kwarg, defaults=fn.args.defaults), body=fn.body, decorator_list=[])
+        else:
+            fn = _find_fn(tree, k["fn"])
         if fn is None:
-            raise Untranslated(f"function {k['fn']} not found")
+            raise Untranslated(f"function {k.get('cls', '')}.{k['fn']} not found")
         if fn.args.vararg or fn.args.kwonlyargs:
             raise Untranslated("signature")
         names = [a.arg for a in fn.args.args]
